@@ -87,6 +87,9 @@ func (w *ConfigurationWatcher) Start(ch chan<- controller.ID) error {
 		for event := range eventCh {
 			ch <- controller.NewID(proposalstore.NewID(event.Configuration.TargetID, event.Configuration.Index))
 			ch <- controller.NewID(proposalstore.NewID(event.Configuration.TargetID, event.Configuration.Status.Applied.Index))
+			// Before anything was applied (or after a rollback moved the index back) neither of the two names the
+			// proposals that wait for the target: the last proposed one does, and it pokes its predecessors
+			ch <- controller.NewID(proposalstore.NewID(event.Configuration.TargetID, event.Configuration.Status.Proposed.Index))
 		}
 	}()
 	return nil
